@@ -377,6 +377,9 @@ func (fr *Frame) mapUpdate(in *ssa.MapUpdate) {
 	if fr.wantSafety("nil") {
 		fr.oblige("safety-nilmap", fmt.Sprintf("L%d", fr.pos(in.Pos()).Line), not(eq(m.T(), "0")), nil, in.Pos(), in.String())
 	}
+	// a store into a nil map panics: execution continues only with a real map (like a nil
+	// pointer dereference; an obligation only with 'safety nil')
+	vc.assume(fr.curR, not(eq(m.T(), "0")))
 	fr.siteMapUpdate(in, true)
 	fr.mapWrite(mt, m.T(), k, fr.get(in.Value))
 	fr.siteMapUpdate(in, false)
